@@ -45,7 +45,7 @@ add("C12", False, "E3-tlc-conformance + E2", "TLC explicit-state model of the st
 add("C13", False, "E1-enumerator + E2 cycles", "exhaustive enumeration of small graphs over per-slot value alphabets (extreme doubles, w<0, rotated offsets, non-diagonal information, id alphabets) through real temp files, 1..5 export/import cycles",
     "Every graph of the bounded family is written and re-read; every field compared bitwise (4 ulp on wrapped angles / renormalised quaternions), tokens re-parsed independently; inexpressible content must raise.",
     "filesystem + CPython float repr/parse trusted", "DESIGN.md 4 C13")
-add("C14", False, "E1-enumerator", "exhaustive enumeration of legal line orders, junk placements (0,1,2 insertions), number formats, separators and line endings vs an independent tokenizer reference; all six loader entry points",
+add("C14", True, "E1-enumerator", "exhaustive enumeration of legal line orders, junk placements (0,1,2 insertions), number formats, separators and line endings vs an independent tokenizer reference; all six loader entry points",
     "Every generated file is loaded by the real readers and compared structurally with the reference parse; warnings counted per unsupported line.",
     "reference tokenizer vf/ref/g2o.py trusted", "DESIGN.md 4 C14")
 add("C15", False, "E2-explorer", "explicit-state BFS to fixpoint over the query alphabet (~30 queries) from several base states; state = bitwise digest of every reachable array/flag/id/list order",
